@@ -2,10 +2,14 @@
    Theorems only; proofs live in Proofs/SizeAtProofs.v.  Generic over every
    number implementation satisfying the order laws NumLaws (binary64
    comparisons included), for every deme satisfying the deme-local part of
-   validity (DemeOK, implied by ValidDeme) and every time t >= 0. *)
-From Coq Require Import Bool List String.
-From Demes Require Import Base.Num Base.Py Model.MDM Model.SizeAt Spec.Valid
-  Proofs.SizeAtProofs.
+   validity (DemeOK, implied by ValidDeme) and every time t >= 0.
+   Between-ness inside an epoch whose sizes differ is arithmetic: for LINEAR epochs it is
+   proved in exact rational arithmetic (the NumQ instance: C13_linear_exact_Q,
+   C13_between_linear_Q, from Proofs/SizeBetweenQ.v); for exponential epochs (exp/log) and for
+   the rounding of binary64 it is evaluated on the implementation's answers by the check. *)
+From Coq Require Import Bool List String QArith.
+From Demes Require Import Base.Num Base.NumQ Base.Py Model.MDM Model.SizeAt Spec.Valid
+  Proofs.SizeAtProofs Proofs.SizeBetweenQ.
 Import ListNotations.
 Local Open Scope string_scope.
 Local Open Scope list_scope.
@@ -86,6 +90,22 @@ Section C13.
   Proof. exact (size_between_equal e t v). Qed.
 End C13.
 
+Theorem C13_linear_exact_Q (e : @epoch NumQ) (t : qx) :
+  @ValidEpoch NumQ e -> e_sf e = "linear" -> @epoch_owns NumQ t e = true ->
+  exists v, @size_in_epoch NumQ e t = Ok v /\
+    (v = e_esize e \/
+     exists s en ss es tt vv, qval (e_start e) = Some s /\ qval (e_end e) = Some en /\
+       qval (e_ssize e) = Some ss /\ qval (e_esize e) = Some es /\ qval t = Some tt /\
+       qval v = Some vv /\ (vv == ss + (es - ss) * ((s - tt) / (s - en)))%Q).
+Proof. exact (size_linear_exact_Q e t). Qed.
+
+Theorem C13_between_linear_Q (e : @epoch NumQ) (t v : qx) :
+  @ValidEpoch NumQ e -> e_sf e = "linear" -> @epoch_owns NumQ t e = true ->
+  @size_in_epoch NumQ e t = Ok v ->
+  (@nle NumQ (e_ssize e) v && @nle NumQ v (e_esize e) = true) \/
+  (@nle NumQ (e_esize e) v && @nle NumQ v (e_ssize e) = true).
+Proof. exact (size_between_linear_Q e t v). Qed.
+
 Print Assumptions C13_zero_before_start.
 Print Assumptions C13_zero_after_end.
 Print Assumptions C13_end_size_at_epoch_end.
@@ -96,3 +116,5 @@ Print Assumptions C13_formula_exponential.
 Print Assumptions C13_formula_linear.
 Print Assumptions C13_formula_equal_sizes.
 Print Assumptions C13_between_partial.
+Print Assumptions C13_linear_exact_Q.
+Print Assumptions C13_between_linear_Q.
